@@ -220,8 +220,8 @@ def run(rep, ctx):
     rep.rule("R06.11", "spglib is given the analysed structure unmodified with the analyzer's tolerance, and its standardised lattice / positions / types are used without a change of convention (shared with C05)")
     with rep.guard("R06.11"):
         from . import shared as _shb
-        _shb.spglib_boundary(rep, ctx.model, "R06.11")
-    rep.floor("R06.11", 7)
+        _shb.spglib_boundary(rep, ctx.model, "R06.11", back=False)
+    rep.floor("R06.11", 4)
     rep.rule("R06.12", "every tabulated normalizer is an automorphism of its group and an isometry of the lattice (the normalised cell is the same crystal in the same space group; shared with C05/C14)")
     from . import shared as _shn
     _shn.normalizer_tables(rep, ctx.tables, "R06.12", perm=False)
